@@ -472,4 +472,164 @@ Section Out.
     - destruct H as (-> & -> & H). now apply IH.
     - now subst.
   Qed.
+
+  (* ---------------------------------------------------------------- dead descriptors stay dead *)
+  Section Dead.
+    Variable D : N -> Prop.
+
+    Definition dinv (k : kst) (r : rstate) : Prop :=
+      forall wd, D wd -> (wd < k_next_wd k)%N /\ (forall kw, In kw (k_watches k) -> kw_wd kw <> wd) /\
+                         alookup N.eqb wd (pfw r) = None /\ (forall x, alookup beqb x (wfp r) <> Some wd).
+
+    Lemma wfp_aset_ne x y (v wd : N) m : v <> wd -> alookup beqb x m <> Some wd -> alookup beqb x (aset beqb y v m) <> Some wd.
+    Proof.
+      intros Hv Hm. destruct (bytes_eq_dec x y) as [->|Hne]; [rewrite wset_eq; congruence | now rewrite wset_neq].
+    Qed.
+
+    Lemma wfp_arem_ne x y (wd : N) m : alookup beqb x m <> Some wd -> alookup beqb x (aremove beqb y m) <> Some wd.
+    Proof.
+      intros Hm. destruct (bytes_eq_dec x y) as [->|Hne]; [rewrite wrem_eq; congruence | now rewrite wrem_neq].
+    Qed.
+
+    Lemma pfw_aset_none wd v (y : bytes) m : v <> wd -> alookup N.eqb wd m = None -> alookup N.eqb wd (aset N.eqb v y m) = None.
+    Proof. intros Hv Hm. now rewrite pset_neq by congruence. Qed.
+
+    Lemma pfw_arem_none wd v (m : list (N * bytes)) : alookup N.eqb wd m = None -> alookup N.eqb wd (aremove N.eqb v m) = None.
+    Proof. intros Hm. destruct (N.eq_dec wd v) as [->|Hne]; [apply prem_eq | now rewrite prem_neq]. Qed.
+
+    Lemma add_watch_dinv r k t p r' k' wd' : dinv k r -> add_watch C r k t p = Some (r', k', wd') -> dinv k' r' /\ ~ D wd'.
+    Proof.
+      intros H Ha. unfold add_watch in Ha. destruct (mem_nat (calls r) (c_faults C)); [discriminate|].
+      unfold kadd_watch in Ha. destruct (flookup p t) as [e|]; [|discriminate].
+      destruct (watch_of_ino k (f_ino e)) as [w0|] eqn:Ew.
+      - injection Ha as <- <- <-. apply watch_of_ino_some in Ew as [Hk _].
+        assert (Hnd : ~ D (kw_wd w0)) by (intros Hd; destruct (H _ Hd) as (_ & Hl & _); exact (Hl w0 Hk eq_refl)).
+        split; [|exact Hnd]. intros wd Hd. destruct (H wd Hd) as (A & B & P1 & W1). cbn.
+        assert (Hne : kw_wd w0 <> wd) by (intros E; apply Hnd; now rewrite E).
+        split; [exact A|]. split; [|split; [now apply pfw_aset_none | intros x; now apply wfp_aset_ne]].
+        intros kw Hin. apply in_map_iff in Hin as (x0 & <- & Hx0). destruct (N.eqb (kw_wd x0) (kw_wd w0)); cbn; now apply B.
+      - injection Ha as <- <- <-.
+        assert (Hnd : ~ D (k_next_wd k)) by (intros Hd; destruct (H _ Hd) as (A & _); lia).
+        split; [|exact Hnd]. intros wd Hd. destruct (H wd Hd) as (A & B & P1 & W1). cbn.
+        assert (Hne : k_next_wd k <> wd) by lia.
+        split; [lia|]. split; [|split; [now apply pfw_aset_none | intros x; now apply wfp_aset_ne]].
+        intros kw Hin. apply in_app_iff in Hin as [Hin|[<-|[]]]; [now apply B | exact Hne].
+    Qed.
+
+    Lemma bump_dinv r k : dinv k r -> dinv k (bump r).
+    Proof. exact (fun H => H). Qed.
+
+    Lemma sim_dirs_dinv t rt ds : forall r k acc, dinv k r ->
+      dinv (snd (fst (sim_dirs C r k t rt ds acc))) (fst (fst (sim_dirs C r k t rt ds acc))).
+    Proof.
+      induction ds as [|d ds IH]; intros r k acc H; cbn [sim_dirs]; [exact H|].
+      destruct (add_watch C r k t (join rt d)) as [[[r1 k1] wd]|] eqn:E; [|now apply IH].
+      apply IH. now apply (add_watch_dinv _ _ _ _ _ _ _ H E).
+    Qed.
+
+    Lemma simulate_dinv t wk : forall r k acc r' k' acc', dinv k r -> simulate C r k t wk acc = Done (r', k', acc') -> dinv k' r'.
+    Proof.
+      induction wk as [|[[rt ds] fls] wk IH]; intros r k acc r' k' acc' H Hs; cbn [simulate] in Hs.
+      - now injection Hs as <- <- <-.
+      - assert (H1 := sim_dirs_dinv t rt ds r k acc H). destruct (sim_dirs C r k t rt ds acc) as [[r1 k1] a1]. cbn in H1.
+        destruct (sim_files C r1 rt fls a1); [|discriminate]. eapply IH; eassumption.
+    Qed.
+
+    Lemma add_dirs_dinv t ps : forall r k, dinv k r -> dinv (snd (add_dirs C r k t ps)) (fst (add_dirs C r k t ps)).
+    Proof.
+      induction ps as [|p ps IH]; intros r k H; cbn [add_dirs]; [exact H|].
+      destruct (add_watch C r k t p) as [[[r1 k1] wd]|] eqn:E; [|exact H].
+      apply IH. now apply (add_watch_dinv _ _ _ _ _ _ _ H E).
+    Qed.
+
+    Lemma rekey_loop_dinv k keys src dst : forall r, dinv k r -> dinv k (rekey_loop keys src dst r).
+    Proof.
+      induction keys as [|[p wd0] keys IH]; intros r H; cbn [rekey_loop]; [exact H|].
+      destruct (starts (src ++ [sep]) p); [|now apply IH]. destruct (alookup beqb p (wfp r)) as [wv|] eqn:E; [|now apply IH].
+      apply IH. intros wd Hd. destruct (H wd Hd) as (A & B & P1 & W1). cbn.
+      assert (Hne : wv <> wd) by (intros ->; exact (W1 p E)).
+      split; [exact A|]. split; [exact B|]. split; [now apply pfw_aset_none|]. intros x. apply wfp_aset_ne; [exact Hne|]. now apply wfp_arem_ne.
+    Qed.
+
+    Lemma krm_watch_dinv k r wd : dinv k r -> dinv (krm_watch k wd) r.
+    Proof.
+      intros H wd' Hd. destruct (H wd' Hd) as (A & B & P1 & W1). destruct (krm_watches_eq k wd) as (K1 & K2 & _).
+      rewrite K1, K2. split; [exact A|]. split; [|now split]. intros kw Hk. apply filter_In in Hk as [Hk _]. now apply B.
+    Qed.
+
+    Lemma forget_tree_dinv p keys : forall r k, dinv k r -> dinv (snd (forget_tree keys p r k)) (fst (forget_tree keys p r k)).
+    Proof.
+      induction keys as [|[q0 y] keys IH]; intros r k H; cbn [forget_tree]; [exact H|].
+      destruct (beqb q0 p || starts (p ++ [sep]) q0); [|now apply IH].
+      destruct (alookup beqb q0 (wfp r)) as [wd|]; [|now apply IH].
+      assert (H1 : dinv k {| wfp := aremove beqb q0 (wfp r); pfw := pfw r; mvf := mvf r; calls := calls r; pend := pend r |}).
+      { intros wd' Hd. destruct (H wd' Hd) as (A & B & P1 & W1). cbn. repeat split; try assumption. intros x. now apply wfp_arem_ne. }
+      destruct (alookup N.eqb wd (pfw r)) as [q'|]; [|now apply IH]. destruct (beqb q' q0); [|now apply IH].
+      apply IH. apply krm_watch_dinv. intros wd' Hd. destruct (H1 wd' Hd) as (A & B & P1 & W1). cbn in *.
+      repeat split; try assumption. now apply pfw_arem_none.
+    Qed.
+
+    Lemma settle_pending_dinv r k e : dinv k r -> dinv (snd (settle_pending C r k e)) (fst (settle_pending C r k e)).
+    Proof.
+      intros H. unfold settle_pending. destruct (c_fix_moveout C); [|exact H]. destruct (pend r) as [[c p]|]; [|exact H].
+      destruct (is_moved_to (k_mask e) && N.eqb (k_cookie e) c && amem N.eqb (k_wd e) (pfw r)); [exact H|].
+      now apply forget_tree_dinv.
+    Qed.
+
+    Lemma read_one_body_dinv t r k acc e r' k' acc' : dinv k r -> read_one_body C t (r, k, acc) e = Done (r', k', acc') -> dinv k' r'.
+    Proof.
+      intros H Hr. unfold read_one_body in Hr. destruct (alookup N.eqb (k_wd e) (pfw r)) as [wp|] eqn:Ewp.
+      2:{ destruct (c_fix_moveout C); [now injection Hr as <- <- <- | discriminate]. }
+      set (sp := match k_name e with [] => wp | _ :: _ => join wp (k_name e) end) in *.
+      assert (HAD := add_dirs_dinv t (sp :: walk_dirs t sp) r k H).
+      destruct (add_dirs C r k t (sp :: walk_dirs t sp)) as [rda ka] eqn:Ea. cbn [fst snd] in HAD.
+      match type of Hr with context [match ?X with pair _ _ => _ end] => assert (HX : dinv (snd (fst X)) (fst (fst X))) end.
+      { destruct (is_moved_from (k_mask e)); [exact H|]. destruct (is_moved_to (k_mask e)); [|exact H].
+        assert (Hrk : forall mwd ms, alookup beqb ms (wfp r) = Some mwd ->
+                  dinv k (if c_recursive C
+                          then rekey_loop (aset beqb sp mwd (aremove beqb ms (wfp r))) ms sp
+                                 {| wfp := aset beqb sp mwd (aremove beqb ms (wfp r)); pfw := aset N.eqb mwd sp (pfw r); mvf := mvf r; calls := calls r; pend := pend r |}
+                          else {| wfp := aset beqb sp mwd (aremove beqb ms (wfp r)); pfw := aset N.eqb mwd sp (pfw r); mvf := mvf r; calls := calls r; pend := pend r |})).
+        { intros mwd ms Em.
+          assert (H1 : dinv k {| wfp := aset beqb sp mwd (aremove beqb ms (wfp r)); pfw := aset N.eqb mwd sp (pfw r); mvf := mvf r; calls := calls r; pend := pend r |}).
+          { intros wd Hd. destruct (H wd Hd) as (A & B & P1 & W1). cbn.
+            assert (Hne : mwd <> wd) by (intros ->; exact (W1 ms Em)).
+            split; [exact A|]. split; [exact B|]. split; [now apply pfw_aset_none|]. intros x. apply wfp_aset_ne; [exact Hne|]. now apply wfp_arem_ne. }
+          destruct (c_recursive C); [now apply rekey_loop_dinv | exact H1]. }
+        destruct (alookup N.eqb (k_cookie e) (mvf r)) as [ms|].
+        - destruct (alookup beqb ms (wfp r)) as [mwd|] eqn:Em; [now apply Hrk|].
+          destruct (c_fix_movein C && c_recursive C && is_directory (k_mask e) && fisdir sp t); [exact HAD | exact H].
+        - destruct (c_fix_movein C && c_recursive C && is_directory (k_mask e) && fisdir sp t); [exact HAD | exact H]. }
+      match type of Hr with context [match ?X with pair _ _ => _ end] => destruct X as [[r1 k1] ev1] end. cbn [fst snd] in HX.
+      match type of Hr with context [match ?Y with Done _ => _ | Crash s => Crash s end] =>
+        assert (HY : forall r2, Y = Done r2 -> dinv k1 r2); [|destruct Y as [r2|]; [|discriminate]] end.
+      { intros r2. destruct (is_ignored (k_mask e)); [|intros E; injection E as <-; exact HX].
+        destruct (alookup N.eqb (k_wd e) (pfw r1)) as [path|]; [|discriminate].
+        assert (H1 : dinv k1 {| wfp := wfp r1; pfw := aremove N.eqb (k_wd e) (pfw r1); mvf := mvf r1; calls := calls r1; pend := pend r1 |}).
+        { intros wd Hd. destruct (HX wd Hd) as (A & B & P1 & W1). cbn. repeat split; try assumption. now apply pfw_arem_none. }
+        cbn [wfp]. destruct (alookup beqb path (wfp r1)) as [w0|].
+        - destruct (N.eqb w0 (k_wd e)); intros E; injection E as <-; [|exact H1].
+          intros wd Hd. destruct (H1 wd Hd) as (A & B & P1 & W1). cbn in *. repeat split; try assumption. intros x. now apply wfp_arem_ne.
+        - destruct (c_fix_ignored C); [intros E; injection E as <-; exact H1 | discriminate]. }
+      specialize (HY r2 eq_refl).
+      destruct (c_recursive C && is_directory (k_mask e) && is_create (k_mask e)).
+      - destruct (add_watch C r2 k1 t (r_path ev1)) as [[[r3 k3] wd3]|] eqn:Eaw.
+        + eapply simulate_dinv; [|exact Hr]. now apply (add_watch_dinv _ _ _ _ _ _ _ HY Eaw).
+        + injection Hr as <- <- <-. exact HY.
+      - injection Hr as <- <- <-. exact HY.
+    Qed.
+
+    Lemma read_one_dinv t r k acc e r' k' acc' : dinv k r -> read_one C t (r, k, acc) e = Done (r', k', acc') -> dinv k' r'.
+    Proof.
+      intros H Hr. unfold read_one in Hr. assert (H1 := settle_pending_dinv r k e H).
+      destruct (settle_pending C r k e) as [r0 k0]. eapply read_one_body_dinv; eassumption.
+    Qed.
+
+    Lemma read_batch_dinv t b : forall r k acc r' k' acc', dinv k r -> read_batch C t (r, k, acc) b = Done (r', k', acc') -> dinv k' r'.
+    Proof.
+      induction b as [|e b IH]; intros r k acc r' k' acc' H Hr; cbn [read_batch] in Hr; [now injection Hr as <- <- <-|].
+      destruct (read_one C t (r, k, acc) e) as [[[r1 k1] a1]|] eqn:E; [|discriminate].
+      eapply IH; [|exact Hr]. eapply read_one_dinv; eassumption.
+    Qed.
+  End Dead.
 End Out.
